@@ -105,6 +105,20 @@ func genDumpCase(t *rapid.T, cfg gen.ProgCfg) dumpCase {
 		e := gen.Pick(t, "whichstr", strs)
 		e.T = gen.QuotePlain(longString(t, n))
 		c.Classes = append(c.Classes, fmt.Sprintf("str:%d", n))
+		// further long strings whose sizes are close to the first one's
+		for i, k := 0, gen.Weighted(t, "morestrs", 60, 25, 15); i < k; i++ {
+			m := n + gen.Pick(t, "sizedelta", []int{-9, -8, -7, -1, 1, 7, 8, 9, 16})
+			if m < 0 {
+				m = 0
+			}
+			st := &gen.Stmt{K: "print", E: &gen.Expr{K: "str", T: gen.QuotePlain(longString(t, m))}}
+			if gen.Bool(t, "before") {
+				p.Stmts = append([]*gen.Stmt{st}, p.Stmts...)
+			} else {
+				p.Stmts = append(p.Stmts, st)
+			}
+			c.Classes = append(c.Classes, fmt.Sprintf("str:%d", m))
+		}
 	} else if gen.Chance(t, 25, "addlongstr") {
 		n := drawSize(t, "strsize2")
 		p.Stmts = append(p.Stmts, &gen.Stmt{K: "print", E: &gen.Expr{K: "str", T: gen.QuotePlain(longString(t, n))}})
